@@ -21,6 +21,7 @@ PROPS = {
             {'template': 'units/c05_strings.rs.in', 'modes': [[]], 'canary': True},
             {'template': 'units/c05_collections.rs.in', 'modes': [['MODE_OK'], ['MODE_ERR']], 'canary': True},
             {'template': 'units/c05_iter.rs.in', 'modes': [['MODE_OK'], ['MODE_ERR']], 'canary': True},
+            {'template': 'units/c05_stdlib_strings.rs.in', 'modes': [['MODE_OK'], ['MODE_ERR']], 'canary': True},
         ],
         'kani': [],
         'not_covered': [
